@@ -600,6 +600,7 @@ ApplyMn(C, mn) ==
               C, SortedIds(DOMAIN mn))
 Fits(m) == \* m : [taken tasks -> <<worker, variant>>]
   /\ \A t \in DOMAIN m : LET w == m[t][1]  v == m[t][2] IN
+        /\ v < Len(classes[task[t].rq + 1])
         /\ srv[w].kind = "sn" /\ ~srv[w].stopping /\ <<task[t].rq, v>> \notin srv[w].blocked /\ TotalCovers(w, task[t].rq, v)
         /\ ~IsMn(task[t].rq)
   /\ \A w \in {x \in DOMAIN srv : srv[x].kind = "sn"} : \A r \in 1..NRes(w) :
@@ -700,7 +701,7 @@ Schedule ==
        LET takenSeq == FoldSeqLeft(LAMBDA acc, rq : acc \o SubSeq(ch[rq][1], 1, ch[rq][2]), <<>>, SortedIds(DOMAIN queue))
            taken == SeqSet(takenSeq)
            q2 == [rq \in DOMAIN queue |-> QueueAfterTake(queue[rq], ch[rq][1], ch[rq][2])]
-       IN \E m \in [taken -> (DOMAIN srv) \X {0}] : \E mn \in MnChoices(MnClasses, {m[t][1] : t \in taken}) :
+       IN \E m \in [taken -> (DOMAIN srv) \X (0..(Max({Len(Classes[i]) : i \in DOMAIN Classes}) - 1))] : \E mn \in MnChoices(MnClasses, {m[t][1] : t \in taken}) :
             /\ Fits(m)
             /\ (Eager => MaximalChoice(ch, m) /\ MaximalMn(mn, m))
             /\ \E wo \in SetToSeqs(DOMAIN srv) :
